@@ -280,6 +280,17 @@ func intVariants(v int64) []any {
 
 func rtSQLCase(k *engine.Case) {
 	r := k.R
+	// the SQL forms are instants: the round trip must not depend on the zone the process runs
+	// in. One case in three runs with another local zone (restored afterwards; cases of a child
+	// run one after the other).
+	if r.Intn(3) == 0 {
+		oldLocal := time.Local
+		z := []*time.Location{time.FixedZone("UTC+8", 8*3600), time.FixedZone("UTC-5", -5*3600), time.FixedZone("UTC+5:30", 19800), time.FixedZone("UTC-9:30", -34200)}[r.Intn(4)]
+		time.Local = z
+		defer func() { time.Local = oldLocal }()
+		k.Logf("process-local zone for this case: %s", z)
+		k.Count("sql_cases_with_non_utc_local_zone", 1)
+	}
 	for i := 0; i < 6; i++ {
 		// UnixNano2Time
 		t := genTimeNano(r)
